@@ -1,3 +1,3 @@
 SPECIFICATION Spec
-INVARIANTS AllContextsCovered
+INVARIANTS AllContextsCovered RunsCovered
 CHECK_DEADLOCK FALSE
